@@ -45,6 +45,10 @@ var registry = map[string]checkFn{
 }
 
 func main() {
+	if len(os.Args) >= 4 && os.Args[1] == "bounds" {
+		dumpBounds(os.Args[2], os.Args[3:])
+		return
+	}
 	if len(os.Args) >= 4 && os.Args[1] == "dump" {
 		dumpFuncs(os.Args[2], os.Args[3:])
 		return
